@@ -150,6 +150,7 @@ func (s *Std) Echo(arg *Payload) (*Payload, *erpc.Status) {
 	}
 	s.SetMeta("Rtag", arg.Tag)
 	s.SetMeta("Mk-Echo", string(s.PeekMeta(op.MetaK)))
+	s.SetMeta("Veto-Key", string(s.PeekMeta(op.MetaK)))
 	return &Payload{Tag: arg.Tag, Data: Transform(arg.Data) + "|" + string(s.PeekMeta(op.MetaK)), N: arg.N + 1}, nil
 }
 
@@ -176,6 +177,7 @@ func (s *Std) Plain(arg *string) (string, *erpc.Status) {
 	}
 	s.SetMeta("Rtag", tag)
 	s.SetMeta("Mk-Echo", string(s.PeekMeta(op.MetaK)))
+	s.SetMeta("Veto-Key", string(s.PeekMeta(op.MetaK)))
 	return tag + ";" + Transform(data) + "|" + string(s.PeekMeta(op.MetaK)), nil
 }
 
@@ -195,6 +197,7 @@ func (s *Std) Bytes(arg *[]byte) ([]byte, *erpc.Status) {
 	}
 	s.SetMeta("Rtag", tag)
 	s.SetMeta("Mk-Echo", string(s.PeekMeta(op.MetaK)))
+	s.SetMeta("Veto-Key", string(s.PeekMeta(op.MetaK)))
 	return []byte(tag + ";" + Transform(data) + "|" + string(s.PeekMeta(op.MetaK))), nil
 }
 
